@@ -205,6 +205,8 @@ def class_candidates_for(E, oid, name):
             if len(ks) <= 6:
                 ks = [K for K in ks if not E.must(c != E.classes.cid(K))]
         out.extend(ks)
+    # closed world of this module family: the object's class is one of the snapshot or generated
+    E.axiom(z3.Or(*([c == E.classes.cid(K) for K in known] + [c > _I().SYM_CLASS_BASE])))
     sym = not E.must(c <= _I().SYM_CLASS_BASE)
     if not sym or True:
         n_known = len(E.classes.by_id)
@@ -276,7 +278,7 @@ def getattr_(E, obj, name, node=None):
         r = hook(obj, name, node)
         if r is not None:
             return r
-    if name in ('utcoffset', 'total_seconds', 'match', 'groups', 'search'):
+    if name in ('utcoffset', 'total_seconds', 'match', 'groups', 'search', 'strftime'):
         E.assumptions.add('closed world: tzinfo/timedelta/compiled-pattern objects are the stdlib ones '
                           '(methods utcoffset/total_seconds/match exist and do not raise)')
         return I.SBuiltinMethod(obj, name)
@@ -428,6 +430,13 @@ def object_getattr(E, obj, name, node):
         if r is not None:
             return r
     if not cands:
+        if E.merge:
+            # specification mode: no class of the tree fits under the current scope
+            # (the scope itself is then infeasible or the object is of a generated
+            # class without this attribute): the read fails
+            if E.fail_conds is not None:
+                E.fail_conds.append((z3.And(*E.scopes) if E.scopes else z3.BoolVal(True), AttributeError, name))
+            return I.T(Val.VAbsent)
         raise I.PathAbort()
     groups = {}
     for K in cands:
@@ -695,7 +704,15 @@ def getitem(E, obj, idx, node=None):
     elif E.must(isstr):
         k = 2
     elif E.merge:
-        raise I.Unsupported('subscript of a value of undetermined kind in a specification')
+        # specification mode, kind not determined: the generic reading
+        kt = E.lift(idx)
+        E.axiom(vals.key_axiom(kt))
+        dv = z3.Select(V.dm(t), vals.KeyId(kt))
+        i = vals.int_of(kt)
+        sv = z3.Select(arr, z3.If(i < 0, i + ln, i))
+        if E.fail_conds is not None:
+            E.fail_conds.append((z3.And(*(E.scopes + [z3.Not(z3.Or(isd, isseq))])), TypeError, 'subscript'))
+        return I.T(z3.If(isd, dv, sv))
     else:
         ok = z3.simplify(z3.Or(isd, isseq, isstr))
         E.fail_if(z3.Not(ok), TypeError, 'not subscriptable')
@@ -1295,7 +1312,7 @@ def install(E):
         t = x.t
         V = Val
         isint = vals.is_integral(t)
-        if z3.is_true(z3.simplify(isint)):
+        if E.must(isint):
             return I.T(V.VInt(vals.int_of(t)))
         raise I.Unsupported('int() of non-integral symbolic value')
     M[int] = m_int
@@ -1363,6 +1380,17 @@ def install(E):
     M[_noop] = lambda E, args, kw: I.C(None)
 
     import re as _re
+    import base64 as _b64
+
+    def m_b64encode(E, args, kw):
+        a = E.lift(args[0])
+        E.fail_if(z3.Not(Val.is_VBytes(a)), TypeError, 'a bytes-like object is required')
+        f = z3.Function('B64Enc', vals.STR, vals.STR)
+        r = f(Val.bs(a))
+        ok = z3.Function('BytesDecodeOk', vals.STR, z3.BoolSort())
+        E.axiom(ok(r))                      # axiom B64: the encoding is ASCII text
+        return I.T(Val.VBytes(r))
+    M[_b64.b64encode] = m_b64encode
 
     def m_re_compile(E, args, kw):
         if len(args) != 1 or kw:
@@ -1461,7 +1489,11 @@ def install(E):
     def m_range(E, args, kw):
         if all(isinstance(a, I.C) for a in args):
             return I.C(range(*[a.v for a in args]))
-        raise I.Unsupported('range() with symbolic bounds')
+        if len(args) == 1:
+            t = E.lift(args[0])
+            E.fail_if(z3.Not(vals.is_integral(t)), TypeError, 'range() bound')
+            return I.SRange(vals.int_of(t))
+        raise I.Unsupported('range() with symbolic start/step')
     M[range] = m_range
 
     def m_print(E, args, kw):
@@ -1489,7 +1521,12 @@ def _ordered_dict(E, args, kw):
         d = I.SDict({})
         for it in items:
             k, v = E.unpack(it, 2, None)
-            setitem(E, d, k, v)
+            if isinstance(d, I.SDict) and isinstance(k, I.C):
+                d.d[k.v] = v
+            else:
+                if isinstance(d, I.SDict):
+                    d = I.T(E.lift(d))
+                d = dict_store(E, d, k, v)
         return d
     raise I.Unsupported('OrderedDict() arguments')
 
